@@ -11,6 +11,7 @@ import Driver.C10
 import Driver.C11
 import Driver.C12
 import Driver.C13
+import Driver.C14
 import Driver.C15
 import Driver.C16
 import Driver.C17
@@ -34,6 +35,7 @@ def dispatch (p : String) (rest : List String) : String :=
   | "C11" => C11.handle rest
   | "C12" => C12.handle rest
   | "C13" => C13.handle rest
+  | "C14" => C14.handle rest
   | "C15" => C15.handle rest
   | "C16" => C16.handle rest
   | "C17" => C17.handle rest
